@@ -189,7 +189,7 @@ package prometheus
 //@   requires m != nil && m.connectionCounter != nil && m.recvMsgCounter != nil && m.recvEventCounter != nil && m.sendMsgCounter != nil && m.reqCounter != nil && m.reqResponseTimeCounter != nil
 //@   requires m.reqCounter.m != nil && held(m.reqCounter.mu) == 0 && m.reqResponseTimeCounter.m != nil && held(m.reqResponseTimeCounter.mu) == 0
 //@   requires refof(m.connectionCounter.c) != refof(m.reqCounter.c)
-//@   assume @aftercall_NewString: !has(m.reqCounter.m, reqID)
+//@   assume @aftercall_NewString: !has(m.reqCounter.m, callresult)
 //@   ensures result1 == nil
 //@   ensures g(gaugeval, refof(m.connectionCounter.c)) == old(g(gaugeval, refof(m.connectionCounter.c))) + 1
 //@   ensures g(gaugeval, refof(m.reqCounter.c)) == old(g(gaugeval, refof(m.reqCounter.c)))
